@@ -11,7 +11,10 @@
 EXTENDS Integers, Sequences, FiniteSets, TLC, Json
 
 CONSTANTS ServiceLists,  \* set of sequences of service names (the serviceNameList to explore)
-          TokenKinds,    \* e.g. {"absent","garbage","malformed","hs256","foreignkey","rs256","valid"}
+          TokenKinds,    \* e.g. {"absent","garbage","malformed","hs256","foreignkey","rs256","valid"}; forged tokens whose claims
+                         \* carry an expiry of their own ("..._past", "..._zero", "..._future"); "retired" = signed by the NRF key
+                         \* that was in force before the certificate at the configured path was rolled over (only "valid" --
+                         \* signed by the key the path holds NOW -- authenticates)
           EmitOneIn
 
 RoutesOf(svc) ==
